@@ -15,6 +15,14 @@ pub struct Progress {
 
 unsafe impl Send for Progress {}
 
+impl Drop for Progress {
+    fn drop(&mut self) {
+        unsafe {
+            libc::munmap(self.ptr as *mut libc::c_void, 32);
+        }
+    }
+}
+
 impl Progress {
     pub fn open(path: &str) -> Progress {
         use std::os::unix::io::AsRawFd;
